@@ -64,6 +64,8 @@ I_MembersHaveConn     == MembersHaveConn(S)
 I_InboundLimit        == InboundLimit(S)
 I_UnconditionalExempt == UnconditionalExempt(S)
 I_NoOverflow          == ~S.ovf
+I_RedialAtRest        == RedialAtRest(S)
+I_StaleErrStopIsNoop  == StaleErrStopIsNoop(S)
 TypeOK == /\ S.dialing \subseteq NodeIDs /\ S.reconn \subseteq NodeIDs
           /\ \A t \in Tids : S.thr[t].pc \in {"free", "idle", "done", "dmark", "rcheck", "rmark", "RecLog", "Sleep", "Dial", "Filter", "Init",
                                                "Start", "Add", "AddPeer", "CleanupF", "CleanupL", "Cleanup", "Rem"}
